@@ -147,8 +147,11 @@ def checks():
     allm = {x["id"]: x for x in json.loads((WORK / "mutants.json").read_text())}
     done = json.loads((WORK / "suite.json").read_text())
     surv = [allm[int(i)] for i, l in done.items() if l.startswith("1 failed, 335 passed")]
+    if os.environ.get("MUT_ONLY") == "silent" and (WORK / "silent.txt").exists():
+        ids = {int(l.split("\t")[0]) for l in (WORK / "silent.txt").read_text().splitlines() if l.strip()}
+        surv = [x for x in surv if x["id"] in ids]
     print("survivors", len(surv))
-    res = {}
+    res = json.loads((WORK / "checks.json").read_text()) if os.environ.get("MUT_ONLY") == "silent" and (WORK / "checks.json").exists() else {}
     with cf.ProcessPoolExecutor(14) as ex:
         for i, fired in ex.map(_check_one, surv):
             res[str(i)] = fired
